@@ -674,7 +674,7 @@ func specPreorderAll(roots []*Node, i int) []*Node {
 // simple_tree.go
 
 // simpleTreeOK(t, cfg): t is the treeSimple that newTreeSimple builds for cfg.
-//@ pred simpleTreeOK(t *treeSimple, cfg *config): t != nil && cfg != nil && t.grower != nil && t.spreader != nil && t.growSpreader != nil && t.walker != nil && t.mkdirer != nil && t.verifier != nil && (cfg.encode != encodeDefault ==> isType(t.grower, nopGrowerSimple)) && (cfg.encode == encodeDefault ==> isType(t.grower, defaultGrowerSimple) && as(t.grower, defaultGrowerSimple).lastNodeFormat == cfg.lastNodeFormat && as(t.grower, defaultGrowerSimple).intermedialNodeFormat == cfg.intermedialNodeFormat && as(t.grower, defaultGrowerSimple).enabledValidation == cfg.dryrun) && (cfg.dryrun ==> isType(t.spreader, colorizeSpreaderSimple) && colorizeOK(as(t.spreader, colorizeSpreaderSimple)) && as(t.spreader, colorizeSpreaderSimple).fileConsiderer.extensions == cfg.fileExtensions) && (!cfg.dryrun && !(cfg.encode >= encodeJSON && cfg.encode <= encodeTOML) ==> isType(t.spreader, defaultSpreaderSimple)) && (!cfg.dryrun && cfg.encode >= encodeJSON && cfg.encode <= encodeTOML ==> isType(t.spreader, formattedSpreaderSimple)) && isType(t.growSpreader, defaultGrowSpreaderSimple) && as(t.growSpreader, defaultGrowSpreaderSimple).defaultGrowerSimple != nil && as(t.growSpreader, defaultGrowSpreaderSimple).defaultGrowerSimple.lastNodeFormat == cfg.lastNodeFormat && as(t.growSpreader, defaultGrowSpreaderSimple).defaultGrowerSimple.intermedialNodeFormat == cfg.intermedialNodeFormat && !as(t.growSpreader, defaultGrowSpreaderSimple).defaultGrowerSimple.enabledValidation && isType(t.walker, defaultWalkerSimple) && isType(t.mkdirer, defaultMkdirerSimple) && as(t.mkdirer, defaultMkdirerSimple).fileConsiderer != nil && as(t.mkdirer, defaultMkdirerSimple).fileConsiderer.extensions == cfg.fileExtensions && as(t.mkdirer, defaultMkdirerSimple).targetDir == (len(cfg.targetDir) != 0 ? cfg.targetDir : ".") && isType(t.verifier, defaultVerifierSimple) && as(t.verifier, defaultVerifierSimple).strict == cfg.strictVerify && as(t.verifier, defaultVerifierSimple).targetDir == (len(cfg.targetDir) != 0 ? cfg.targetDir : ".")
+//@ pred simpleTreeOK(t *treeSimple, cfg *config): t != nil && cfg != nil && t.grower != nil && t.spreader != nil && t.growSpreader != nil && t.walker != nil && t.mkdirer != nil && t.verifier != nil && (cfg.encode != encodeDefault ==> isType(t.grower, nopGrowerSimple)) && (cfg.encode == encodeDefault ==> isType(t.grower, defaultGrowerSimple) && as(t.grower, defaultGrowerSimple).lastNodeFormat == cfg.lastNodeFormat && as(t.grower, defaultGrowerSimple).intermedialNodeFormat == cfg.intermedialNodeFormat && as(t.grower, defaultGrowerSimple).enabledValidation == cfg.dryrun) && (cfg.dryrun ==> isType(t.spreader, colorizeSpreaderSimple) && colorizeOK(as(t.spreader, colorizeSpreaderSimple)) && as(t.spreader, colorizeSpreaderSimple).fileConsiderer.extensions == cfg.fileExtensions) && (!cfg.dryrun && !(cfg.encode >= encodeJSON && cfg.encode <= encodeTOML) ==> isType(t.spreader, defaultSpreaderSimple)) && (!cfg.dryrun && cfg.encode >= encodeJSON && cfg.encode <= encodeTOML ==> isType(t.spreader, formattedSpreaderSimple) && as(t.spreader, formattedSpreaderSimple).encode != nil && as(t.spreader, formattedSpreaderSimple).formattedRoot != nil) && isType(t.growSpreader, defaultGrowSpreaderSimple) && as(t.growSpreader, defaultGrowSpreaderSimple).defaultGrowerSimple != nil && as(t.growSpreader, defaultGrowSpreaderSimple).defaultGrowerSimple.lastNodeFormat == cfg.lastNodeFormat && as(t.growSpreader, defaultGrowSpreaderSimple).defaultGrowerSimple.intermedialNodeFormat == cfg.intermedialNodeFormat && !as(t.growSpreader, defaultGrowSpreaderSimple).defaultGrowerSimple.enabledValidation && isType(t.walker, defaultWalkerSimple) && isType(t.mkdirer, defaultMkdirerSimple) && as(t.mkdirer, defaultMkdirerSimple).fileConsiderer != nil && as(t.mkdirer, defaultMkdirerSimple).fileConsiderer.extensions == cfg.fileExtensions && as(t.mkdirer, defaultMkdirerSimple).targetDir == (len(cfg.targetDir) != 0 ? cfg.targetDir : ".") && isType(t.verifier, defaultVerifierSimple) && as(t.verifier, defaultVerifierSimple).strict == cfg.strictVerify && as(t.verifier, defaultVerifierSimple).targetDir == (len(cfg.targetDir) != 0 ? cfg.targetDir : ".")
 
 //@ func gtree.newTreeSimple
 //@   requires nn: cfg != nil
@@ -1804,16 +1804,19 @@ func specDryReport(fileColor, dirColor *color.Color, ext []string, roots []*Node
 //@   invariant each: forall j int :: {encTrace[j]} len(old(encTrace)) <= j && j < len(encTrace) ==> allocated(encTrace[j]) && isType(encTrace[j], $T) && as(encTrace[j], $T).Name == roots[j - len(old(encTrace))].name && len(as(encTrace[j], $T).Children) == len(roots[j - len(old(encTrace))].children)
 
 // interface-level view of the formatted spreader (the dynamic type does not reveal the instance): consequences of the
-// three verified instance contracts, hence assumed here
+// three verified instance contracts (`derived from`: proved per instance, a call of the instance by contract standing for the body)
 //@ func gtree.formattedSpreaderSimple.spread
-//@   assumed
+//@   derived from gtree.formattedSpreaderSimple.spread[jsonNode], gtree.formattedSpreaderSimple.spread[yamlNode], gtree.formattedSpreaderSimple.spread[tomlNode]
+//@   requires nn: f != nil && f.encode != nil && f.formattedRoot != nil
+//@   requires roots: forall k int :: {roots[k]} 0 <= k && k < len(roots) ==> roots[k] != nil
 //@   modifies out, wfail, encTrace, encoders
 //@   ensures once [C04]: encoders == old(encoders) + 1
 //@   ensures fail [C14]: result != nil ==> wfail
 //@   ensures quiet [C14]: result == nil ==> wfail == old(wfail)
 //@   ensures sticky: old(wfail) ==> wfail
 //@ func gtree.formattedSpreaderSimple.spreadIter
-//@   assumed
+//@   derived from gtree.formattedSpreaderSimple.spreadIter[jsonNode], gtree.formattedSpreaderSimple.spreadIter[yamlNode], gtree.formattedSpreaderSimple.spreadIter[tomlNode]
+//@   requires nn: f != nil && f.encode != nil && f.formattedRoot != nil
 //@   param rootIter follows rootStream
 //@   yields errStream(f, w, nil)
 
